@@ -222,6 +222,12 @@ impl<'tcx> Cx<'tcx> {
             }
             _ => {}
         }
+        if let Const::Val(rustc_middle::mir::ConstValue::Scalar(rustc_middle::mir::interpret::Scalar::Ptr(ptr, _)), _) = c {
+            let aid = ptr.provenance.alloc_id();
+            if let Some(rustc_middle::mir::interpret::GlobalAlloc::Static(sd)) = tcx.try_get_global_alloc(aid) {
+                let _ = write!(s, ",\"static\":{}", esc(&tcx.def_path_str(sd)));
+            }
+        }
         if let Const::Unevaluated(u, _) = c {
             let _ = write!(
                 s,
